@@ -328,6 +328,29 @@ def run(tier, seed):
       generic(cur, cname)
       if k == 'noisy':
         break      # relations against a stochastic inner experimenter cannot be checked point by point
+  # every noise type, long enough for the rare (5%) heavy-tailed draws to fire: two wrappers with the same seed must agree
+  # whatever the state of numpy's global generator is
+  for nt in ['NO_NOISE', 'MODERATE_GAUSSIAN', 'SEVERE_GAUSSIAN', 'MODERATE_UNIFORM', 'SEVERE_UNIFORM', 'MODERATE_SELDOM_CAUCHY', 'SEVERE_SELDOM_CAUCHY']:
+    b, bname = base('bbob')
+    sd = r.randrange(0, 1000)
+    try:
+      pts = sample(b.problem_statement(), 150 if quick else 600)
+      np.random.seed(r.randrange(1000))
+      w1 = no.NoisyExperimenter.from_type(b, nt, seed=sd)
+      a = [mvals(evalv(w1, p)) for p in pts]
+      np.random.seed(r.randrange(1000) + 1000)
+      w2 = no.NoisyExperimenter.from_type(b, nt, seed=sd)
+      c = [mvals(evalv(w2, p)) for p in pts]
+      rep.case({'wrapper': 'noisy-long', 'noise': nt, 'over': bname, 'seed': sd, 'evaluations': len(pts)}, True)
+      rep.count('noisy_long_' + nt)
+      diff = [i for i in range(len(pts)) if a[i] != c[i]]
+      if diff:
+        viol('NoisyExperimenter with a seed is not reproducible (%d of %d evaluations differ)' % (len(diff), len(pts)),
+             {'over': bname, 'noise': nt, 'seed': sd, 'first_differing_evaluation': diff[0], 'run1': a[diff[0]], 'run2': c[diff[0]]})
+    except Exception as e:  # pylint: disable=broad-except
+      import traceback
+      viol('NoisyExperimenter(%s) raised %s' % (nt, type(e).__name__), {'over': bname, 'error': traceback.format_exc()[-400:]})
+
   # switch experimenter over two bases
   for it in range(2 if quick else 10):
     e1, n1 = base('bbob')
